@@ -210,6 +210,8 @@ class CompatScenario:
                 elif nm == "_GenericAlias":
                     # List[int], Dict[str, int], Union[int, str] ... ; Callable[..] is a subclass instance
                     res = res or (isinstance(a, R) and a.kind == "generic")
+                elif nm == "GenericAlias":
+                    res = res or (isinstance(a, R) and a.kind == "pep585")  # types.GenericAlias: list[int], frozenset[str]
                 elif nm == "_SpecialGenericAlias":
                     res = res or (isinstance(a, S) and a.name.startswith("mod:typing.") and a.name[11:] in ALIASES)
                 elif nm == "ForwardRef":
